@@ -425,6 +425,28 @@ fn events<W: Write>(_t: &Tables, thorough: bool, rng: &mut Rng, out: &mut W) {
         writeln!(out, "EVS R:* J:{}:1 J:{}:1", l, r).unwrap();
         writeln!(out, "EVS R:* J:{}:1 X:0:* X:0:* J:{}:1 J:0:1 X:0:* J:0:1", l, r).unwrap();
     } }
+    // long paths and deep pops around the byte boundary (and, thorough, one across 16 bits): a chain, a pop of depth d,
+    // then an extension and a ring closure that must attach to the right atom
+    let mut deep: Vec<(usize, usize)> = Vec::new();
+    for d in [1usize, 2, 127, 128, 254, 255, 256, 257, 298, 299] { deep.push((300, d)) }
+    if thorough { deep.push((66000, 65536)) }
+    for (len, d) in deep {
+        let mut evs = vec!["R:*".to_string(), "J:0:7".to_string()];
+        for _ in 1..len { evs.push("X:0:A1".to_string()) }
+        evs.push(format!("P:{}", d));
+        evs.push("X:2:A4".to_string());
+        evs.push("J:0:7".to_string());
+        evs.push("X:0:A5".to_string());
+        writeln!(out, "EVS {}", join_sp(&evs)).unwrap();
+        // the same with every ring number open along the way (0..=99) and closed after the pop
+        if len == 300 {
+            let mut evs = vec!["R:*".to_string()];
+            for i in 1..len { evs.push("X:0:A1".to_string()); if i <= 100 { evs.push(format!("J:0:{}", i - 1)) } }
+            evs.push(format!("P:{}", d));
+            for i in 0..100 { evs.push(format!("J:0:{}", 99 - i)) }
+            writeln!(out, "EVS {}", join_sp(&evs)).unwrap();
+        }
+    }
     let n = if thorough { 200000 } else { 20000 };
     for i in 0..n {
         let len = if i % 40 == 0 { 200 } else { rng.range(1, 25) };
@@ -619,7 +641,7 @@ fn stereo_family<W: Write>(out: &mut W) {
 /// arrival bond at several positions of its bond list, neighbours all distinguishable (isotope labels), with and
 /// without ring closures among its bonds
 fn hub_family<W: Write>(thorough: bool, out: &mut W) {
-    let degs: &[usize] = if thorough { &[5, 9, 16, 17, 20, 21, 31, 32, 33, 34, 35, 40, 63, 64, 65, 100, 130, 260] } else { &[5, 17, 21, 32, 33, 34, 35, 40, 65, 130] };
+    let degs: &[usize] = if thorough { &[5, 9, 16, 17, 20, 21, 31, 32, 33, 34, 35, 40, 63, 64, 65, 100, 130, 260] } else { &[5, 17, 21, 32, 33, 34, 35, 40, 65, 130, 255, 256, 257] };
     for deg in degs.iter().copied() {
         let mut arrivals = vec![0usize, 1, 4, 7, deg / 2, deg - 1];
         arrivals.retain(|a| *a < deg);
